@@ -16,3 +16,5 @@ def run(prog, rep):
     from ..rules import r_close as _rc
     _rc.run_fapl(prog, rep)
     _rc.run_hid_owner(prog, rep)
+    from ..rules import r_key as _rk2
+    _rk2.run_const_pure(prog, rep)
